@@ -299,7 +299,7 @@ func runC07(seed uint64, n int, outDir string, replay string) {
 			if err != nil {
 				panic(err)
 			}
-			defer w.node.sl.Stop()
+			defer safeStop(w.node)
 			for b := 0; b < blocksPerCase; b++ {
 				st, err := w.build()
 				if err != nil {
